@@ -2,7 +2,7 @@
    Only ExtrOcamlBasic's directives are used; numbers stay as extracted inductives. *)
 Require Extraction.
 Require Import ExtrOcamlBasic.
-From RxModel Require Import Derived Ops2 Subject GroupBy Flatten Timed.
+From RxModel Require Import Derived Ops2 Subject GroupBy Flatten Timed Async.
 From RxSpec Require Import DerivedSpec Ops2Spec SubjectSpec BehaviorSpec GroupBySpec FlattenSpec TimedSpec.
 Extraction Language OCaml.
 Extraction "model.ml"
@@ -13,4 +13,5 @@ Extraction "model.ml"
   srun subj0 arun asub0 size_ok brun bsubj0 abrun sops_of
   run_group_by first_keys group_trace announced flattened outer_term announced_first items_of term_of term_evs val_eqb
   run_flatten downstream peak_ok subs_increasing completion_ok
-  run_timed raw_ok.
+  run_timed raw_ok timed_ok prompt_case remaining
+  run_async yields pendings.
